@@ -654,7 +654,7 @@ func evaluate(c *hk.Ctx, s *server, tc *tcase, b baseline) {
 	}
 	// 2. what the client received
 	gotResp := canonResp(tc.ans.msg, tc.m, b.base)
-	if tc.ans.problem == "" && js(gotResp) != js(wantResp) {
+	if js(gotResp) != js(wantResp) {
 		fp, what := "middleware:result-differs", "the client did not receive the handler's result as modified by the chain"
 		switch stopKind {
 		case "shortOk", "shortRpc":
